@@ -43,7 +43,8 @@ def random_scenario(rng, i, maxbytes=4000, faults=True, bidir=None, iss=None):
         for d in ('a2b', 'b2a'):
             if rng.random() < 0.7:
                 sc[d] = dict(loss=rng.choice([0, 0.05, 0.1, 0.2]), dup=rng.choice([0, 0.05, 0.1]), hold=rng.choice([0, 0.05, 0.15]),
-                             budget=rng.choice([1, 2, 4, 8, 16]), replay=rng.choice([0, 0, 0.1]))
+                             budget=rng.choice([1, 2, 4, 8, 16]), replay=rng.choice([0, 0, 0.1]),
+                             coalesce=rng.choice([0, 0, 0.1, 0.3]))
     if iss is not None:
         sc['a']['iss'] = iss
     return sc
@@ -71,7 +72,35 @@ def run_pair(ctx, drv, scs, props, name, parallel=48, classify=None, what='TCP b
     inconclusive = [i for i, s in enumerate(segs) if s[-1].get('ev') == 'end' and s[-1].get('why') in ('deadline', 'connect-timeout', 'accept-timeout')]
     ok_idx = [i for i in range(len(scs)) if i not in inconclusive and not any(e.get('ev') == 'panic' for e in segs[i])]
     tc = tcfg(props)
-    acc, rej = vlib.validate_segments(ctx, 'TraceTcp', tc, SPEC, [segs[i] for i in ok_idx], name=name, timeout=3000, max_reruns=8)
+    # Validation in passes: findings the spec can step over (KF_FLAG) that are known and hit once are switched on for every
+    # segment that has no verdict yet, and those segments are validated again, so that a frequent known finding (F4 shows up
+    # in almost every transfer with default buffers) does not leave the rest of the traces unexamined.
+    pending = list(ok_idx)
+    acc, rej = 0, []
+    for npass in range(5):
+        a_, r_ = vlib.validate_segments(ctx, 'TraceTcp', tc, SPEC, [segs[i] for i in pending], name='%s-p%d' % (name, npass), timeout=3000, max_reruns=8)
+        unexamined = [pending[k] for k in getattr(ctx, 'last_unexamined', [])]
+        newflags = set()
+        still = []
+        for k, ln in r_:
+            i = pending[k]
+            key0 = classify(scs[i], segs[i], ln) if classify else None
+            if key0 in KF_FLAG and ctx.known(key0) is not None and not segs[i][0].get(KF_FLAG[key0]):
+                ctx.violation('%s: %s in scenario %s' % (what, key0, scs[i].get('tag')), dict(kind='pair', scenario=scs[i]), key=key0)
+                newflags.add(KF_FLAG[key0])
+                still.append(i)
+            else:
+                rej.append((ok_idx.index(i), ln))
+        acc += a_
+        if not newflags:
+            # segments left unexamined because of the cap stay without a verdict (counted in the evidence)
+            break
+        pending = still + unexamined
+        for i in pending:
+            for f in newflags:
+                segs[i][0][f] = True
+        ctx.extra['unexamined_segments'] = 0
+    ok_idx_map = ok_idx
     stats = dict(scenarios=len(scs), accepted=acc, rejected=len(rej), undecided_deadline=len(inconclusive),
                  events=sum(len(s) for s in segs), segments_emitted=sum(1 for s in segs for e in s if e['ev'] == 'emit'),
                  faults=sum(1 for s in segs for e in s if e['ev'] == 'drop' or e.get('how') in ('dup', 'held', 'replay')),
@@ -159,7 +188,7 @@ def is_f1(sc, seg, ln):
     if ev.get('ev') != 'quiesce':
         return False
     for s, r in (('a', 'b'), ('b', 'a')):
-        if ev.get(s, {}).get('sndwnd') != 0:
+        if ev.get(s, {}).get('sndwnd') != 0 or ev.get(s, {}).get('state') != 4:
             continue
         if any(e['ev'] == 'emit' and e.get('e') == r and e.get('wnd') == 0 and 'S' not in e.get('flags', '') for e in seg[:ln]):
             return True
